@@ -105,6 +105,13 @@ def gen_rotate(rng, o, N, forms=FORMS, max_vec=4, wild=True, alias=False):
         op["degrees"] = rng.random() < 0.7
     elif form == "euler":
         seq = rng.choice(EULER_SEQS)
+        if rng.random() < 0.5:  # any valid sequence: 1-3 axes, no axis twice in a row, extrinsic or intrinsic
+            axes = []
+            for _ in range(rng.randint(1, 3)):
+                axes.append(rng.choice([a for a in "xyz" if not axes or a != axes[-1]]))
+            seq = "".join(axes)
+            if rng.random() < 0.5:
+                seq = seq.upper()
         k = len(seq)
 
         def one():
